@@ -59,7 +59,7 @@ SameElement(sup, sto) ==
   \/ (IsNA(sup) /\ IsNA(sto) /\ (Tag(sup) = Tag(sto) \/ {Tag(sup), Tag(sto)} = {"nat", "none"} \/ {Tag(sup), Tag(sto)} = {"nan", "none"}))
   \/ (Tag(sup) = "c" /\ Tag(sto) = "c" /\ sup = sto)
   \/ (Tag(sup) \in {"i", "f"} /\ Tag(sto) = "c" /\ sto[3] = <<"f", 0, 1>> /\ NumTagC(sto[2]) /\ QOf(sto[2]) = QOf(sup))
-  \/ (Tag(sup) = "I" /\ Tag(sto) = "c" /\ sto[3] = <<"f", 0, 1>> /\ sto[2] = sup)
+  \/ (Tag(sup) \in {"I", "F"} /\ Tag(sto) = "c" /\ sto[3] = <<"f", 0, 1>> /\ sto[2] = sup)          \* a real number kept as a complex number with a zero imaginary part
   \/ (Tag(sup) = "d" /\ Tag(sto) = "d" /\ sup[3] = sto[3] /\ sup[2] = sto[2])
   \/ (Tag(sup) = "nan" /\ Tag(sto) = "c" /\ IsNA(sto[2]))                  \* NaN kept as a complex NaN
 =============================================================================
